@@ -13,7 +13,7 @@ RULE = ("case = (structure tree with <= N nodes over containers list/dict (plain
         "Packer: all sequences to depth D undeduplicated plus breadth-first search deduplicated on the reference "
         "cache-flag state; distinct = distinct (structure, partition, per-event outcome table) hashes; a case is "
         "trivial when the structure holds no tensor slot")
-RULE_ADDED = 'Added later: dictionary variants (OrderedDict, user subclass with attributes, defaultdict) and a mixed-dtype variant (float32 / float64 / complex128 by alias class, values not representable in the narrower dtype). Round 6: shared-storage variant (distinct tensor objects sharing storage, dtype, shape and strides).'
+RULE_ADDED = 'Added later: dictionary variants (OrderedDict, user subclass with attributes, defaultdict) and a mixed-dtype variant (float32 / float64 / complex128 by alias class, values not representable in the narrower dtype). Round 6: shared-storage variant (distinct tensor objects sharing storage, dtype, shape and strides). Round 7: scripted reshape histories (one Packer used before and after the shape of a packed tensor is changed in place by t_(), unsqueeze_() or .data assignment: 4 structures x unique x interface x alias).'
 ASSUMPTIONS = [
     "tensor shapes are drawn from {(), (2,), (2,2)} by alias class index; values are small distinct integers",
     "a constructor called before its getter may raise (documented precondition) or return a correct structure",
@@ -173,6 +173,15 @@ def cases(tier, seed):
                 out.append({"spec": spec, "part": part, "nodes": n, "depth": 2, "dtv": "mixed"})
                 out.append({"spec": spec, "part": part, "nodes": n, "depth": 2, "shv": "same"})
                 out.append({"spec": spec, "part": part, "nodes": n, "depth": 2, "shv": "same", "stv": "shared"})
+    # scripted histories with an in-place change of a packed tensor's SHAPE between two uses of one Packer
+    # (get, construct, reshape in place, get again, construct with the new shapes, construct with the old ones)
+    for struct in ("list", "dict", "obj", "nested"):
+        for u in (True, False):
+            for iface in ("l", "f"):
+                for op in ("transpose", "unsqueeze", "data"):
+                    for alias in (False, True):
+                        out.append({"search": "reshape", "struct": struct, "u": u, "iface": iface, "op": op,
+                                    "alias": alias, "spec": None, "part": None, "nodes": 3, "depth": 6})
     # dictionary variants: every structure with <= 3 (quick) / 4 (thorough) nodes that contains a dictionary
     for n in range(2, (4 if tier == "quick" else 5)):
         for spec in _trees(n):
@@ -553,7 +562,118 @@ def replay(spec, part, hist):
     return w, last
 
 
+def run_reshape(cfg):
+    """one Packer used before and after the caller changes the shape of a packed tensor in place: the second
+    listing reports the tensors as they are then, tensors shaped like that listing are accepted and put in place,
+    tensors of the old shape are rejected (list interface)"""
+    import xitorch
+    from mc.util import V
+    u, iface, op, alias = cfg["u"], cfg["iface"], cfg["op"], cfg["alias"]
+    t0 = torch.arange(6, dtype=torch.float64).reshape(2, 3) + 1.0
+    t1 = torch.arange(3, dtype=torch.float64) + 20.0
+    third = t0 if alias else (torch.arange(2, dtype=torch.float64) + 40.0)
+    if cfg["struct"] == "list":
+        obj = [t0, t1, third]
+        read = lambda o: [o[0], o[1], o[2]]
+    elif cfg["struct"] == "dict":
+        obj = {"a": t0, "b": t1, "c": third}
+        read = lambda o: [o["a"], o["b"], o["c"]]
+    elif cfg["struct"] == "obj":
+        obj = Obj()
+        obj.a, obj.b, obj.c = t0, t1, third
+        read = lambda o: [o.a, o.b, o.c]
+    else:
+        obj = {"p": [t0, {"q": t1}], "r": (Obj(),)}
+        inner = Obj()
+        inner.z = third
+        obj["r"] = [inner]
+        read = lambda o: [o["p"][0], o["p"][1]["q"], o["r"][0].z]
+    viol = []
+    nexec = [0]
+
+    def add(f, **d):
+        viol.append(V("reshape:" + f, dict(d, **{k: cfg[k] for k in ("struct", "u", "iface", "op", "alias")})))
+
+    def slots():
+        return read(obj)
+
+    def uniq(lst):
+        out = []
+        for t in lst:
+            if not any(t is x for x in out):
+                out.append(t)
+        return out
+
+    def fresh(base, k):
+        return [torch.full(tuple(t.shape), 100.0 * (k + 1) + i, dtype=t.dtype) +
+                torch.arange(t.numel(), dtype=t.dtype).reshape(tuple(t.shape)) for i, t in enumerate(base)]
+
+    P = xitorch.Packer(obj)
+
+    def round_trip(stage, k):
+        ref = uniq(slots()) if u else slots()
+        try:
+            nexec[0] += 1
+            got = P.get_param_tensor_list(unique=u) if iface == "l" else P.get_param_tensor(unique=u)
+        except Exception as e:
+            return add("getter-raised:%s" % type(e).__name__, stage=stage)
+        if iface == "l":
+            if len(got) != len(ref) or any(a is not b for a, b in zip(got, ref)):
+                return add("getter-list-wrong", stage=stage)
+        else:
+            exp = torch.cat([t.reshape(-1) for t in ref])
+            if got.numel() != exp.numel() or not torch.equal(got.reshape(-1), exp):
+                return add("flat-getter-wrong-value", stage=stage)
+        new = fresh(ref, k)
+        try:
+            nexec[0] += 1
+            res = P.construct_from_tensor_list(list(new), unique=u) if iface == "l" else \
+                P.construct_from_tensor(torch.cat([t.reshape(-1) for t in new]), unique=u)
+        except Exception as e:
+            return add("constructor-raised-for-tensors-shaped-like-the-listing:%s" % type(e).__name__, stage=stage,
+                       message=str(e)[:160])
+        exp_slots = []
+        cur = slots()
+        for t in cur:
+            j = [i for i, r in enumerate(ref) if r is t][0] if u else [i for i, r in enumerate(cur) if r is t][0]
+            exp_slots.append(new[j] if u else None)
+        got_slots = read(res)
+        for i, (g, t) in enumerate(zip(got_slots, cur)):
+            want = exp_slots[i] if u else new[i]
+            if tuple(g.shape) != tuple(t.shape) or not torch.equal(g, want.reshape(tuple(t.shape))):
+                add("rebuilt-slot-holds-other-tensor", stage=stage, slot=i, shape=list(g.shape), want=list(t.shape))
+                break
+        if any(a is not b for a, b in zip(read(obj), cur)):
+            add("original-modified", stage=stage)
+        return new
+
+    round_trip("before", 0)
+    old_shapes = [tuple(t.shape) for t in (uniq(slots()) if u else slots())]
+    if op == "transpose":
+        t0.t_()
+    elif op == "unsqueeze":
+        t0.unsqueeze_(0)
+    else:
+        t0.data = torch.arange(8, dtype=torch.float64).reshape(4, 2) - 3.0       # other shape AND other numel
+    if not viol:
+        round_trip("after", 1)
+    if not viol and iface == "l":
+        ref = uniq(slots()) if u else slots()
+        stale = [torch.zeros(sh, dtype=torch.float64) for sh in old_shapes]
+        try:
+            nexec[0] += 1
+            P.construct_from_tensor_list(stale, unique=u)
+            add("bad-input-accepted:old-shapes", old=[list(sh) for sh in old_shapes],
+                now=[list(t.shape) for t in ref])
+        except Exception:
+            pass
+    return {"viol": viol, "obs": {"nviol": len(viol), "cfg": [cfg["struct"], u, iface, op, alias]},
+            "status": "violation" if viol else "ok", "n": nexec[0], "states": 6, "transitions": nexec[0]}
+
+
 def run_case(cfg):
+    if cfg.get("search") == "reshape":
+        return run_reshape(cfg)
     spec, part, depth = cfg["spec"], cfg["part"], cfg["depth"]
     _DVAR[0] = cfg.get("dvar", "dict")
     _DTV[0] = cfg.get("dtv", "f64")
